@@ -1,3 +1,109 @@
 import WireV.Sets
+import WireP.Lemmas.PMapLookup
+/-! # C05 — a type with two sources in one provider set is always rejected, never silently resolved
+
+Property theorems only; helper lemmas live in `WireP/Lemmas/PMap{Basic,Ins,Bnd,Proofs,Lookup}.lean`.
+The model is `WireV.buildProviderMap` (lean/WireV/PMap.lean), a transcription of
+`internal/wire/analyze.go:buildProviderMap`.  `baseSources`/`allSources` (defined in
+`WireP/Lemmas/PMapProofs.lean`, namespace `WireP.C05`) list every type the set mentions as provided,
+one entry per source; `LookupSpec` (in `WireP/Lemmas/PMapLookup.lean`) is the record of lookup facts.
+Also holds the map half of C11 (`bind_alias`, `bind_needs_concrete`). -/
 namespace WireP.C05
+open WireV
+
+variable (args : Option (List Ty)) (imports : List (Nat × PMap)) (provs : List Prov)
+  (vals : List Val) (flds : List Fld) (bnds : List Bnd)
+
+/-- **Duplicates are rejected.**  If any type has two sources — argument, import, provider output,
+    value, field or binding, in any combination — the result is a non-empty list of errors. -/
+theorem bpm_dup_rejected (h : ¬ (allSources args imports provs vals flds bnds).Nodup) :
+    ∃ es, buildProviderMap args imports provs vals flds bnds = .error es ∧ es ≠ [] :=
+  WireP.PMapProofs.bpm_dup_rejected args imports provs vals flds bnds h
+
+/-- **Never picks one.**  An accepted set has exactly one source per type. -/
+theorem bpm_never_picks (pm : PMap) (sm : SMap)
+    (h : buildProviderMap args imports provs vals flds bnds = .ok (pm, sm)) :
+    (allSources args imports provs vals flds bnds).Nodup :=
+  WireP.PMapProofs.bpm_never_picks args imports provs vals flds bnds h
+
+/-- **A multiple-bindings error only ever names a type that really has two sources.** -/
+theorem bpm_multi_named (es : List Err) (t : Ty)
+    (h : buildProviderMap args imports provs vals flds bnds = .error es) (hm : Err.multi t ∈ es) :
+    2 ≤ (allSources args imports provs vals flds bnds).count t :=
+  WireP.PMapProofs.bpm_multi_named args imports provs vals flds bnds h hm
+
+/-- **If the only defect is a duplicate, the error is a multiple-bindings error.** -/
+theorem bpm_dup_named (h : ¬ (allSources args imports provs vals flds bnds).Nodup)
+    (hp : ∀ b ∈ bnds, b.provided ∈ baseSources args imports provs vals flds) :
+    ∃ es t, buildProviderMap args imports provs vals flds bnds = .error es ∧ Err.multi t ∈ es :=
+  WireP.PMapProofs.bpm_dup_named args imports provs vals flds bnds h hp
+
+/-- **What an accepted result contains**: keys are exactly the sources, each source is found
+    under its type with its own payload and its own source identity, and a binding's interface key
+    aliases the entry of its concrete type (fields of `LookupSpec`). -/
+theorem bpm_ok_lookup (pm : PMap) (sm : SMap)
+    (h : buildProviderMap args imports provs vals flds bnds = .ok (pm, sm)) :
+    LookupSpec args imports provs vals flds bnds pm sm :=
+  WireP.PMapProofs.bpm_ok_lookup h
+
+/-- `LookupSpec`, spelled out (so that the statement can be read here) -/
+theorem bpm_ok_lookup_unfolded (pm : PMap) (sm : SMap)
+    (h : buildProviderMap args imports provs vals flds bnds = .ok (pm, sm)) :
+    (∀ t, (look t pm).isSome ↔ t ∈ allSources args imports provs vals flds bnds) ∧
+    (∀ t, (look t sm).isSome ↔ t ∈ allSources args imports provs vals flds bnds) ∧
+    (pm.map (·.1)).Nodup ∧ (sm.map (·.1)).Nodup ∧
+    (∀ i t, (args.getD [])[i]? = some t → look t pm = some ⟨t, .arg i⟩ ∧ look t sm = some (.arg i)) ∧
+    (∀ ip ∈ imports, ∀ kv ∈ ip.2, look kv.1 pm = some kv.2 ∧ look kv.1 sm = some (.imp ip.1)) ∧
+    (∀ p ∈ provs, ∀ t ∈ p.outs, look t pm = some ⟨t, .prov p⟩ ∧ look t sm = some (.prov p.id)) ∧
+    (∀ v ∈ vals, look v.out pm = some ⟨v.out, .val v⟩ ∧ look v.out sm = some (.val v.id)) ∧
+    (∀ f ∈ flds, ∀ t ∈ f.outs, look t pm = some ⟨t, .fld f⟩ ∧ look t sm = some (.fld f.id)) ∧
+    (∀ b ∈ bnds, ∃ c, look b.provided pm = some c ∧ look b.iface pm = some c ∧
+        look b.iface sm = some (.bnd b.id)) :=
+  let s := WireP.PMapProofs.bpm_ok_lookup h
+  ⟨s.pm_keys, s.sm_keys, s.pm_nodup, s.sm_nodup, s.arg, s.imp, s.prov, s.val, s.fld, s.bnd⟩
+
+/-- C11 `bind_alias`: the interface key of a binding holds the very entry of the concrete type —
+    no new source, same `PT` -/
+theorem bind_alias (pm : PMap) (sm : SMap)
+    (h : buildProviderMap args imports provs vals flds bnds = .ok (pm, sm)) (b : Bnd) (hb : b ∈ bnds) :
+    ∃ c, look b.provided pm = some c ∧ look b.iface pm = some c ∧ look b.iface sm = some (.bnd b.id) :=
+  (WireP.PMapProofs.bpm_ok_lookup h).bnd b hb
+
+/-- C11 `bind_needs_concrete`: a binding whose concrete type has no source in the set is an error -/
+theorem bind_needs_concrete (b : Bnd) (hb : b ∈ bnds)
+    (hp : b.provided ∉ allSources args imports provs vals flds bnds) :
+    ∃ es, buildProviderMap args imports provs vals flds bnds = .error es ∧ es ≠ [] :=
+  WireP.PMapProofs.bind_needs_concrete hb hp
+
+/-! ## non-vacuity -/
+
+/-- one argument, one import (holding a value), a two-output provider, a value, a field, a binding -/
+def exImports : List (Nat × PMap) := [(1, [(20, ⟨20, .val ⟨5, 20⟩⟩)])]
+def exProv : Prov := { id := 1, args := [10], outs := [30, 31] }
+def exVals : List Val := [⟨2, 40⟩]
+def exFlds : List Fld := [⟨3, 30, [50]⟩]
+def exBnds : List Bnd := [⟨4, 60, 30⟩]
+
+example : allSources (some [10]) exImports [exProv] exVals exFlds exBnds = [10, 20, 30, 31, 40, 50, 60] := by
+  decide
+example : (allSources (some [10]) exImports [exProv] exVals exFlds exBnds).Nodup := by decide
+-- the accepted instance: the hypothesis of `bpm_never_picks`/`bpm_ok_lookup` is satisfiable
+example : buildProviderMap (some [10]) exImports [exProv] exVals exFlds exBnds =
+    .ok ([(60, ⟨30, .prov exProv⟩), (50, ⟨50, .fld ⟨3, 30, [50]⟩⟩), (40, ⟨40, .val ⟨2, 40⟩⟩),
+          (31, ⟨31, .prov exProv⟩), (30, ⟨30, .prov exProv⟩), (20, ⟨20, .val ⟨5, 20⟩⟩), (10, ⟨10, .arg 0⟩)],
+         [(60, .bnd 4), (50, .fld 3), (40, .val 2), (31, .prov 1), (30, .prov 1), (20, .imp 1), (10, .arg 0)]) := by
+  rfl
+-- the rejected instances: the hypotheses of `bpm_dup_rejected`/`bpm_dup_named`/`bpm_multi_named` are satisfiable
+example : ¬ (allSources (some [10]) exImports [exProv] (⟨9, 20⟩ :: exVals) exFlds exBnds).Nodup := by decide
+example : ∀ b ∈ exBnds, b.provided ∈ baseSources (some [10]) exImports [exProv] (⟨9, 20⟩ :: exVals) exFlds := by
+  decide
+-- a value colliding with an imported type, and a binding colliding with a provider output
+example : buildProviderMap (some [10]) exImports [exProv] (⟨9, 20⟩ :: exVals) exFlds exBnds =
+    .error [Err.multi 20] := by rfl
+example : buildProviderMap none [] [exProv] [] [] [⟨4, 31, 30⟩] = .error [Err.multi 31] := by rfl
+example : (allSources none [] [exProv] [] [] [⟨4, 31, 30⟩]).count 31 = 2 := by decide
+-- `bind_needs_concrete`
+example : (⟨4, 60, 77⟩ : Bnd).provided ∉ allSources none [] [exProv] [] [] [⟨4, 60, 77⟩] := by decide
+example : buildProviderMap none [] [exProv] [] [] [⟨4, 60, 77⟩] = .error [Err.bindMissing 60 77] := by rfl
+
 end WireP.C05
